@@ -130,3 +130,9 @@ reg('C15', 'jsonmap', 'rule_json_sibling')
 reg('C14', 'eqhash', 'rule_eq_allpaths')
 reg('C20', 'eqhash', 'rule_eq_allpaths')
 reg('C19', 'unsafety', 'rule_range_validated', ('dev', 'release'))
+
+# ---- round 4: abstract interpretation of index bounds; the closing-position defect of nested composites (F8)
+reg('C17', 'bounds', 'rule_index_guarded', ('dev', 'release'))
+reg('C04', 'streams', 'rule_forward_all')
+reg('C06', 'streams', 'rule_forward_all')
+reg('C13', 'streams', 'rule_forward_all')
